@@ -1,13 +1,16 @@
 """Table of registered checks (source of MANIFEST.json, see tools/gen_manifest.py)."""
 
 FIX_COMMITS = ['c5b9684 (C05 DataReader EOD==0)', 'c3bb002 (C17 ESC prefix on 1xx/3xx)', '832276a (C18 NUL in PROXY v1 address)',
-               '57b9489 (C20 flatten raising on over-long 8-bit header lines)']
+               '57b9489 (C20 flatten raising on over-long 8-bit header lines)', '72f4152 (C07 421 after message data)',
+               '443d88b (C07/C08 transaction survives STARTTLS)', '32a1f33 (C09 size limit segmentation-dependent / oversize content executed)']
 
 ENGINES = [
     {'name': 'runner', 'path': 'vf/runner.py', 'serves_properties': [],
      'kind_free_text': 'sharded case runner: 16 forked workers, seeds from VERIF_SEED, signature bucketing, '
                        'JSON delta-debugging of failing cases into replay files, known-findings handling, evidence'},
-    {'name': 'scripted-socket', 'path': 'vf/transport.py', 'serves_properties': ['C05'],
+    {'name': 'smtp-session-model', 'path': 'vf/smtpmodel.py', 'serves_properties': ['C07', 'C09'],
+     'kind_free_text': 'synchronous Server/SmtpEdge sessions on a scripted socket, verdicts encoded in command arguments, reference SMTP automaton, lock-step judge'},
+    {'name': 'scripted-socket', 'path': 'vf/transport.py', 'serves_properties': ['C05', 'C17'],
      'kind_free_text': 'in-memory socket whose recv() segmentation is a generated input'},
 ]
 
@@ -52,6 +55,37 @@ CHECKS['C20'] = {
             'agree; arbitrary byte strings never raise; 7-bit conversion yields ASCII that decodes to the same text or refuses without an encoder',
     'design_ref': 'DESIGN.md section 2 C20',
     'note': 'field bodies exclude C0 controls that str.splitlines treats as line breaks; stdlib email package trusted as decoder',
+}
+CHECKS['C16'] = {
+    'engine': 'runner',
+    'level': 'exploration',
+    'technique': 'property-based testing: Hypothesis policy chains through Queue.enqueue, conservation multiset vs independent first-match rewriter, aliasing probe',
+    'text': 'generated recipient lists x chains of the built-in policies (with repetition, plus a policy returning its input) are run through '
+            'Queue.enqueue with a recording store; the written envelopes must carry the (rewritten) recipients exactly once, same sender/body, '
+            'original header fields in order, Date/Message-Id added only when absent, one Received first per policy, and share no mutable state',
+    'design_ref': 'DESIGN.md section 2 C16',
+    'note': 'a forwarding rule rewriting to the empty string is gray',
+}
+CHECKS['C07'] = {
+    'engine': 'smtp-session-model',
+    'level': 'exploration',
+    'technique': 'model-based testing: reference SMTP automaton vs real Server/SmtpEdge on a scripted socket; exhaustive sequences <=2/3 from 13 abstract states + Hypothesis sessions',
+    'text': 'every command sequence up to length 2 (quick) / 3 (thorough) over a 53-letter command x verdict alphabet from each of 13 abstract '
+            'session states, plus random sessions up to 25 commands, on both handler layers; replies and the callback trace are compared in lock '
+            'step with a reference automaton written from the statement (callbacks only when enabled, 5xx without callback otherwise, transaction '
+            'reset points, one final reply per command, nothing after 221/421, envelopes reaching the queue)',
+    'design_ref': 'DESIGN.md section 2 C07',
+    'note': 'which 5xx code, state after a rejected DATA command, extension-dependent commands after HELO and the AUTH exchange itself are gray',
+}
+CHECKS['C09'] = {
+    'engine': 'smtp-session-model',
+    'level': 'exploration',
+    'technique': 'metamorphic property-based testing: one stream under 6 segmentations must give identical output/callbacks/envelopes; grammar streams also vs reference automaton',
+    'text': 'grammar-built and byte-mutated session streams (empty bodies, lone dots, command-looking lines, bare LF, over the SIZE limit, pipelined) '
+            'are run in one burst, per line, per byte, cut at every CR/LF and at random cuts; output bytes, callback arguments (incl. message data) '
+            'and queued envelopes must be identical and, for grammar streams, equal to the reference automaton (content never executed, commands never swallowed)',
+    'design_ref': 'DESIGN.md section 2 C09',
+    'note': 'message sizes kept 20 bytes away from the SIZE limit; every segmentation ends with EOF',
 }
 
 NOT_APPLICABLE = {}
